@@ -248,3 +248,102 @@ theorem readRecordV2_spec (rec : RecV2) : AllOrShort readRecordV2 (encRec rec) (
       exact ⟨r', by simp only [readRecordV2, henc, h1, hr']⟩
 
 end KV.C02.BR
+
+namespace KV.C02.BR
+open KV KV.RW KV.Spec.RB
+
+theorem aos_readInt32 (x : Int) (h : InRange M32 x) : AllOrShort readInt32 (i32 x) x := by
+  intro rest remain
+  have hl : (i32 x).length = 4 := by simp [i32]
+  constructor
+  · intro hle
+    have hk : ¬ 4 > remain := by omega
+    have := readI32_i32 x rest h
+    simp only [readI32] at this
+    simp only [readInt32, readInt, hk, if_false, this, hl]
+  · intro hlt
+    exact ⟨_, by simp only [readInt32, readInt]; rw [if_pos (by omega)]⟩
+
+/-- a 4-byte length followed by that many bytes (−1: null) -/
+theorem aos_readBytes32 (ob : Option Bytes) (h : InRange M32 (optLen ob : Int)) : AllOrShort readBytes32 (nbytes ob) (ob.getD []) := by
+  cases ob with
+  | none =>
+    have h2 : AllOrShort (fun r => if (-1 : Int) > (r.remain : Int) then .error (.short, r) else readNewBytes (-1) r : M Bytes) [] [] := by
+      intro rest remain
+      refine ⟨fun _ => ?_, fun hlt => by simp at hlt⟩
+      have : ¬ ((-1 : Int) > (remain : Int)) := by omega
+      simp [this, readNewBytes]
+    have := aos_bind (q := fun n => (fun r => if n > (r.remain : Int) then .error (.short, r) else readNewBytes n r : M Bytes))
+      (aos_readInt32 (-1) (by decide)) h2
+    exact aos_congr this (by simp [nbytes])
+  | some b =>
+    have hb := aos_readNewBytes b
+    have h2 : AllOrShort (fun r => if ((b.length : Int)) > (r.remain : Int) then .error (.short, r) else readNewBytes (b.length : Int) r : M Bytes) b b := by
+      intro rest remain
+      constructor
+      · intro hle
+        have : ¬ ((b.length : Int) > (remain : Int)) := by omega
+        simp only [this, if_false]
+        exact (hb rest remain).1 hle
+      · intro hlt
+        have : ((b.length : Int) > (remain : Int)) := by omega
+        exact ⟨⟨b ++ rest, remain⟩, by simp only [this, if_true]⟩
+    have := aos_bind (q := fun n => (fun r => if n > (r.remain : Int) then .error (.short, r) else readNewBytes n r : M Bytes))
+      (aos_readInt32 (b.length : Int) (by simpa [optLen] using h)) h2
+    exact aos_congr this (by simp [nbytes])
+
+theorem aos_discardN (b : Bytes) : AllOrShort (discardN b.length) b () := by
+  intro rest remain
+  constructor
+  · intro hle
+    have h2 : b.length ≤ (b ++ rest).length := by simp
+    simp only [discardN, hle, if_true, h2, List.drop_left']
+  · intro hlt
+    have h1 : ¬ b.length ≤ remain := by omega
+    have h2 : remain ≤ (b ++ rest).length := by simp; omega
+    exact ⟨⟨List.drop remain (b ++ rest), 0⟩, by simp only [discardN, h1, if_false, h2, if_true]⟩
+
+theorem aos_discardBytes32 (ob : Option Bytes) (h : InRange M32 (optLen ob : Int)) : AllOrShort discardBytes32 (nbytes ob) () := by
+  cases ob with
+  | none =>
+    have h2 : AllOrShort (fun r => if (-1 : Int) > (r.remain : Int) then .error (.short, r)
+        else if (-1 : Int) < 0 then .ok ((), r) else discardN (-1 : Int).toNat r : M Unit) [] () := by
+      intro rest remain
+      refine ⟨fun _ => ?_, fun hlt => by simp at hlt⟩
+      have : ¬ ((-1 : Int) > (remain : Int)) := by omega
+      simp [this]
+    have := aos_bind (q := fun n => (fun r => if n > (r.remain : Int) then .error (.short, r)
+        else if n < 0 then .ok ((), r) else discardN n.toNat r : M Unit)) (aos_readInt32 (-1) (by decide)) h2
+    exact aos_congr this (by simp [nbytes])
+  | some b =>
+    have hb := aos_discardN b
+    have h2 : AllOrShort (fun r => if ((b.length : Int)) > (r.remain : Int) then .error (.short, r)
+        else if ((b.length : Int)) < 0 then .ok ((), r) else discardN ((b.length : Int)).toNat r : M Unit) b () := by
+      intro rest remain
+      have hn : ¬ ((b.length : Int) < 0) := by omega
+      constructor
+      · intro hle
+        have : ¬ ((b.length : Int) > (remain : Int)) := by omega
+        simp only [this, if_false, hn, Int.toNat_natCast]
+        exact (hb rest remain).1 hle
+      · intro hlt
+        have : ((b.length : Int) > (remain : Int)) := by omega
+        exact ⟨⟨b ++ rest, remain⟩, by simp only [this, if_true]⟩
+    have := aos_bind (q := fun n => (fun r => if n > (r.remain : Int) then .error (.short, r)
+        else if n < 0 then .ok ((), r) else discardN n.toNat r : M Unit)) (aos_readInt32 (b.length : Int) (by simpa [optLen] using h)) h2
+    exact aos_congr this (by simp [nbytes])
+
+/-- key and value of a v0/v1 message, read … -/
+theorem readBodyV1_spec (m : Msg) (hk : InRange M32 (optLen m.key : Int)) (hv : InRange M32 (optLen m.value : Int)) :
+    AllOrShort readBodyV1 (nbytes m.key ++ nbytes m.value) (m.key.getD [], m.value.getD []) := by
+  have h2 : AllOrShort (M.bind readBytes32 fun v => M.pure (m.key.getD [], v)) (nbytes m.value ++ []) (m.key.getD [], m.value.getD []) :=
+    aos_bind (aos_readBytes32 m.value hv) (aos_pure _)
+  have h1 := aos_bind (q := fun k => M.bind readBytes32 fun v => M.pure (k, v)) (aos_readBytes32 m.key hk) h2
+  exact aos_congr h1 (by simp)
+
+/-- … or skipped -/
+theorem skipBodyV1_spec (m : Msg) (hk : InRange M32 (optLen m.key : Int)) (hv : InRange M32 (optLen m.value : Int)) :
+    AllOrShort skipBodyV1 (nbytes m.key ++ nbytes m.value) () :=
+  aos_bind (q := fun _ => discardBytes32) (aos_discardBytes32 m.key hk) (aos_discardBytes32 m.value hv)
+
+end KV.C02.BR
